@@ -166,7 +166,7 @@ func (x *exec) reportPanic(label string, line []byte, pi *panicInfo) {
 	if site == "" {
 		site = "?"
 	}
-	sig := fmt.Sprintf("decoder=%s panic=%q at=%s src=%q", x.fam, normMsg(pi.Msg), site, pi.SrcText)
+	sig := fmt.Sprintf("decoder=%s panic=`%s` at=%s src=`%s`", x.fam, normMsg(pi.Msg), site, pi.SrcText)
 	if pi.TopFunc != "" && pi.TopFunc != pi.RepoFunc {
 		sig += " via=" + pi.TopFunc
 	}
